@@ -22,6 +22,29 @@ class StmtMixin(object):
     def exec_block(self, stmts, env):
         for s in stmts:
             self.exec_stmt(s, env)
+            f = self.frame
+            if f is not None and getattr(f, "active_hints", None):
+                self.flush_hints(env)
+
+    def flush_hints(self, env):
+        """Instantiate the remembered quantified facts at every hint term that has become
+        evaluable (each hint once per path)."""
+        f = self.frame
+        done = f.__dict__.setdefault("hints_done", set())
+        todo = [h for h in f.active_hints if h not in done]
+        if not todo:
+            return
+        terms = []
+        for h in todo:
+            try:
+                v = self.spec_value(h, env)
+            except (OutOfSubset, KeyError, PyRaise):
+                continue
+            done.add(h)
+            if isinstance(v, NTuple):
+                terms.append(tuple(v.vals))
+        if terms:
+            self.instantiate_qfacts(terms)
 
     def exec_stmt(self, node, env):
         m = getattr(self, "x_" + type(node).__name__, None)
@@ -66,8 +89,34 @@ class StmtMixin(object):
     # ------------------------------------------------------------------ assignment
     def x_Assign(self, node, env):
         v = self.eval(node.value, env)
+        f = self.frame
+        if (f is not None and f.verifying and f.contract is not None and f.contract.locals_
+                and len(node.targets) == 1 and isinstance(node.targets[0], ast.Name)
+                and node.targets[0].id in f.contract.locals_):
+            v = self.typed_local(node.targets[0].id, v, f.contract.locals_[node.targets[0].id])
         for t in node.targets:
             self.assign(t, v, env)
+
+    def typed_local(self, name, v, decl):
+        """Replace the value the code just built by the declared symbolic model of it, after
+        checking that the code really built that kind of object."""
+        from .types import fresh_of_type
+        kind, _, tdecl = decl.partition("=>")
+        kind, tdecl = kind.strip(), tdecl.strip()
+        ok = False
+        if kind == "emptydict":
+            ok = isinstance(v, PyDict) and not v.items
+        elif kind == "emptylist":
+            ok = isinstance(v, PyList) and not v.items
+        elif kind.startswith("opaque:"):
+            ok = isinstance(v, Opaque) and v.kind == kind[7:]
+        if not ok:
+            raise OutOfSubset("local %s is declared %s but the code assigns %r" % (name, kind, v))
+        nv = fresh_of_type(self, tdecl, name)
+        if isinstance(v, Opaque) and isinstance(nv, Opaque):
+            for k_, x_ in v.attrs.items():
+                nv.attrs.setdefault(k_, x_)
+        return nv
 
     def x_AnnAssign(self, node, env):
         if node.value is not None:
@@ -408,12 +457,106 @@ class StmtMixin(object):
     def check_invariants(self, spec, env, phase, extra=None):
         k = spec.ordinal
         for name, expr in spec.invariants:
-            g = self.spec(expr, env, extra=extra)
-            self.path.oblige(self.oblname("loop%d/%s/%s" % (k, name, phase)), g, kind="invariant")
+            self.oblige_spec(self.oblname("loop%d/%s/%s" % (k, name, phase)), expr, env, extra=extra,
+                             hints=spec.hints, kind="invariant", sk_hints=spec.sk_hints)
 
     def assume_invariants(self, spec, env, extra=None):
         for name, expr in spec.invariants:
-            self.path.assume(self.spec(expr, env, extra=extra))
+            self.assume_spec(expr, env, extra=extra)
+
+    # ---- quantified facts with manual instantiation -------------------------------------
+    @staticmethod
+    def forall_lambda(expr):
+        t = parse_expr(expr)
+        if (isinstance(t, ast.Call) and isinstance(t.func, ast.Name) and t.func.id == "forall" and t.args
+                and isinstance(t.args[0], ast.Lambda)):
+            return t.args[0]
+        return None
+
+    def assume_spec(self, expr, env, extra=None):
+        """Assume a clause; a top-level ``forall(lambda ...)`` is also remembered (with a snapshot of
+        the state it speaks about) so that later goals can instantiate it at chosen terms."""
+        from .verify import snapshot
+        lam = self.forall_lambda(expr)
+        fact = self.spec(expr, env, extra=extra)
+        if lam is None:
+            self.path.assume(fact)
+            return
+        self.path.assume(fact, tag="qfact")
+        senv = Env(module=env.module)
+        memo = {}
+        e, chain = env, []
+        while e is not None:
+            chain.append(e)
+            e = e.parent
+        for e in reversed(chain):
+            for k_, v_ in e.vars.items():
+                senv.vars[k_] = snapshot(v_, memo)
+        if extra:
+            senv.vars.update(extra)
+        if not hasattr(self.frame, "qfacts"):
+            self.frame.qfacts = []
+        self.frame.qfacts.append((lam, senv))
+
+    def instantiate_qfacts(self, terms_list):
+        """Assume every remembered quantified fact at each of the given argument tuples."""
+        for lam, senv in getattr(self.frame, "qfacts", []):
+            names = [a.arg for a in lam.args.args]
+            for terms in terms_list:
+                if len(terms) != len(names):
+                    continue
+                e2 = Env(parent=senv)
+                for n_, t_ in zip(names, terms):
+                    e2.set(n_, t_)
+                self.spec_mode += 1
+                try:
+                    inst = ops.truth(self, self.eval(lam.body, e2))
+                finally:
+                    self.spec_mode -= 1
+                self.path.assume(inst)
+
+    def hint_terms(self, hints, env):
+        out = []
+        for h in hints or []:
+            try:
+                v = self.spec_value(h, env)
+            except (OutOfSubset, KeyError, PyRaise):
+                continue
+            if isinstance(v, NTuple):
+                out.append(tuple(v.vals))
+            elif isinstance(v, tuple):
+                out.append(tuple(v))
+            else:
+                out.append((v,))
+        return out
+
+    def oblige_spec(self, name, expr, env, extra=None, hints=None, kind="assert", assume_after=True, sk_hints=None):
+        lam = self.forall_lambda(expr)
+        qf = getattr(self.frame, "qfacts", [])
+        if lam is None or not qf:
+            if qf and hints:
+                self.instantiate_qfacts(self.hint_terms(hints, env))
+            self.path.oblige(name, self.spec(expr, env, extra=extra), kind=kind, assume_after=assume_after)
+            return
+        names = [a.arg for a in lam.args.args]
+        sk = tuple(z3.Int(fresh_name("sk_" + n_)) for n_ in names)
+        e2 = Env(parent=env)
+        if extra:
+            e2.vars.update(extra)
+        for n_, t_ in zip(names, sk):
+            e2.set(n_, t_)
+        sk_terms = self.hint_terms(sk_hints, e2)
+        self.spec_mode += 1
+        try:
+            goal = ops.truth(self, self.eval(lam.body, e2))
+        finally:
+            self.spec_mode -= 1
+        saved = list(self.path.pc)
+        self.instantiate_qfacts([sk] + sk_terms + self.hint_terms(hints, env))
+        self.path.oblige(name, goal, kind=kind, assume_after=False, drop=("qfact",))
+        self.path.pc[:] = saved
+        if assume_after:
+            self.path.assume(self.spec(expr, env, extra=extra), tag="qfact")
 
     def poison_assigned(self, stmts, env, why):
         for n in self.assigned_names(stmts):
@@ -443,12 +586,17 @@ class StmtMixin(object):
             c = ops.truth(self, self.eval(node.test, env))
             self.path.assume(c)
             m0 = self.spec_value(spec.decreases, env) if spec.decreases else None
+            self.path.event("loop_iter", spec.ordinal, None, None)
+            self.frame.active_hints = list(spec.hints)
+            self.frame.hints_done = set()
             try:
                 self.exec_block(node.body, env)
             except ContinueEx:
                 pass
             except BreakEx:
+                self.path.event("loop_break", spec.ordinal)
                 return
+            self.path.event("loop_iter_end", spec.ordinal, None)
             self.check_invariants(spec, env, "preserve")
             if m0 is not None:
                 m1 = self.spec_value(spec.decreases, env)
@@ -459,6 +607,7 @@ class StmtMixin(object):
         self.assume_invariants(spec, env)
         c = ops.truth(self, self.eval(node.test, env))
         self.path.assume(ops.negate(c))
+        self.path.event("loop_exit", spec.ordinal)
         self.exec_block(node.orelse, env)
 
     def x_For(self, node, env):
@@ -487,6 +636,8 @@ class StmtMixin(object):
                 except ContinueEx:
                     pass
                 return
+        if spec is not None and spec.abstract is not None:
+            return self.loop_abstract(node, env, spec)
         if spec is not None and spec.summarise == "stateless":
             return self.for_stateless(node, env, it, spec)
         if spec is not None and spec.invariants:
@@ -510,6 +661,18 @@ class StmtMixin(object):
                 continue
         if not broke:
             self.exec_block(node.orelse, env)
+
+    def loop_abstract(self, node, env, spec):
+        """The loop is NOT verified here: it is replaced by an assumed summary (havoc of what it
+        modifies + assumed facts).  Every use is listed among the unchecked assumptions."""
+        self.poison_assigned(node.body + [ast.Assign(targets=[node.target], value=ast.Constant(0))] if isinstance(node, ast.For) else node.body,
+                             env, "assigned in an abstracted loop")
+        self.havoc_loop(spec, [], env)
+        for name, expr in spec.abstract.get("assume", []):
+            self.assume_spec(expr, env)
+        self.note_assumption("ASSUMED loop summary in %s loop %d (%s): %s" % (
+            self.frame.qualname, spec.ordinal, spec.abstract.get("why", ""), "; ".join(n for n, _ in spec.abstract.get("assume", []))))
+        self.path.event("loop_abstract", spec.ordinal)
 
     def is_reyield(self, node):
         if len(node.body) != 1 or node.orelse:
@@ -553,6 +716,9 @@ class StmtMixin(object):
             self.havoc_loop(spec, [], env)
             self.assume_invariants(spec, env)
             self.assign(node.target, item, env)
+            if not hasattr(self.frame, "last_loop_item"):
+                self.frame.last_loop_item = {}
+            self.frame.last_loop_item[spec.ordinal] = item
             self.frame.loop_index = getattr(self.frame, "loop_index", {})
             self.frame.loop_index[spec.ordinal] = k
             self.path.event("loop_iter", spec.ordinal, k, it)
